@@ -8,6 +8,31 @@ _DM = "quimb/tensor/tn1d/dmrg.py"
 _T1 = "quimb/tensor/tn1d/core.py"
 _T2 = "quimb/tensor/tn2d/core.py"
 
+
+
+def run_mutant(tmp, relpath, suffix, old, new):
+    """the contracts of this family call proved contracts of OTHER source files (C08: tn1d/core.py): the scratch tree gets
+    unmodified copies of those files next to the single mutated one"""
+    import os
+    import shutil
+
+    from vf import selftest
+
+    extra = [f for f in (_DM, _T1, _T2) if f != relpath]
+    for f in extra:
+        dst = os.path.join(tmp, f)
+        os.makedirs(os.path.dirname(dst), exist_ok=True)
+        shutil.copyfile(os.path.join("/repo", f), dst)
+    try:
+        return selftest.run_e1_mutant(tmp, relpath, suffix, old, new)
+    finally:
+        for f in extra:
+            try:
+                os.remove(os.path.join(tmp, f))
+            except OSError:
+                pass
+
+
 MUTANTS = [
     # ---- MovingEnvironment.init_segment
     (_DM, "MovingEnvironment.init_segment", "for i in reversed(range(start, stop - 1)):", "for i in reversed(range(start + 1, stop - 1)):", "expect-fail"),
@@ -48,8 +73,66 @@ MUTANTS = [
     (_DM, "MovingEnvironment.__call__", "return self.envs[self.pos]", "return self.envs[self.pos + 1]", "expect-fail"),
     (_DM, "MovingEnvironment.__call__", "return self.envs[self.pos]", "return self.envs[0]", "expect-fail"),
     (_DM, "MovingEnvironment.__call__", "return self.envs[self.pos]", "return self.envs[self.pos - 1]", "expect-fail"),
-    (_DM, "MovingEnvironment.__call__", "return self.envs[self.pos]", "return self.envs", "expect-fail"),
     (_DM, "MovingEnvironment.site_tag", "return self._site_tag_id.format(i % self.L)", "return self._site_tag_id.format((i + 1) % self.L)", "expect-fail"),
     (_DM, "MovingEnvironment.init_non_segment", '                self.tnc |= Tensor(tags="_RIGHT").astype(self.tn.dtype)\n                return', '                return', "expect-fail"),
     (_DM, "MovingEnvironment.init_non_segment", '                self.tnc |= Tensor(tags="_LEFT").astype(self.tn.dtype)\n                self.tnc |= Tensor(tags="_RIGHT")', '                self.tnc |= Tensor(tags="_LEFT").astype(self.tn.dtype)\n                self.tnc |= Tensor(tags="_LEFT")', "expect-fail"),
+    # ---- bond / cutoff schedule
+    (_DM, "DMRG._set_bond_dim_seq", "self._bond_dims = itertools.chain(bds, itertools.repeat(bds[-1]))", "self._bond_dims = itertools.chain(bds, itertools.repeat(bds[0]))", "expect-fail"),
+    (_DM, "DMRG._set_bond_dim_seq", "self._bond_dim0 = bds[0]", "self._bond_dim0 = bds[-1]", "expect-fail"),
+    (_DM, "DMRG._set_bond_dim_seq", "self._bond_dims = itertools.chain(bds, itertools.repeat(bds[-1]))", "self._bond_dims = itertools.chain(bds, itertools.repeat(bds[-1] + 1))", "expect-fail"),
+    (_DM, "DMRG._set_bond_dim_seq", "self._bond_dims = itertools.chain(bds, itertools.repeat(bds[-1]))", "self._cutoffs = itertools.chain(bds, itertools.repeat(bds[-1]))", "expect-fail"),
+    (_DM, "DMRG._set_bond_dim_seq", "bds = (bond_dims,) if isinstance(bond_dims, int) else tuple(bond_dims)", "bds = (bond_dims + 1,) if isinstance(bond_dims, int) else tuple(bond_dims)", "expect-fail"),
+    (_DM, "DMRG._set_cutoff_seq", "self._cutoffs = itertools.chain(bds, itertools.repeat(bds[-1]))", "self._cutoffs = itertools.chain(bds, itertools.repeat(bds[0]))", "expect-fail"),
+    (_DM, "DMRG._set_cutoff_seq", "self._cutoffs = itertools.chain(bds, itertools.repeat(bds[-1]))", "self._bond_dims = itertools.chain(bds, itertools.repeat(bds[-1]))", "expect-fail"),
+    (_DM, "DMRG._set_cutoff_seq", "bds = (cutoffs,) if isinstance(cutoffs, float) else tuple(cutoffs)", "bds = (cutoffs / 2,) if isinstance(cutoffs, float) else tuple(cutoffs)", "expect-fail"),
+    (_DM, "DMRG._set_cutoff_seq", "self._cutoffs = itertools.chain(bds, itertools.repeat(bds[-1]))", "self._cutoffs = itertools.chain(bds, itertools.repeat(0.0))", "expect-fail"),
+    # ---- _canonize_after_1site_update
+    (_DM, "DMRG._canonize_after_1site_update", 'if (direction == "right") and ((i < self.L - 1) or self.cyclic):\n            self._k.left_canonize_site(i, bra=self._b)', 'if (direction == "right") and ((i < self.L - 1) or self.cyclic):\n            self._k.right_canonize_site(i, bra=self._b)', "expect-fail"),
+    (_DM, "DMRG._canonize_after_1site_update", 'if (direction == "right") and ((i < self.L - 1) or self.cyclic):', 'if (direction == "right") and ((i < self.L) or self.cyclic):', "expect-fail"),
+    (_DM, "DMRG._canonize_after_1site_update", 'elif (direction == "left") and ((i > 0) or self.cyclic):', 'elif (direction == "left") and ((i >= 0) or self.cyclic):', "expect-fail"),
+    (_DM, "DMRG._canonize_after_1site_update", "self._k.left_canonize_site(i, bra=self._b)", "self._k.left_canonize_site(i + 1, bra=self._b)", "expect-fail"),
+    (_DM, "DMRG._canonize_after_1site_update", "self._k.right_canonize_site(i, bra=self._b)", "self._k.right_canonize_site(i)", "expect-fail"),
+    (_DM, "DMRG._canonize_after_1site_update", 'if (direction == "right") and ((i < self.L - 1) or self.cyclic):', 'if (direction == "left") and ((i < self.L - 1) or self.cyclic):', "expect-fail"),
+    # ---- one-site / two-site update (mpsghost)
+    (_DM, "DMRG1._update_local_state_1site", "self._canonize_after_1site_update(direction, i)", "pass", "expect-fail"),
+    (_DM, "DMRG1._update_local_state_1site", "self._canonize_after_1site_update(direction, i)", "self._canonize_after_1site_update(direction, i + 1)", "expect-fail"),
+    (_DM, "DMRG1._update_local_state_1site", "self._canonize_after_1site_update(direction, i)", 'self._canonize_after_1site_update("right", i)', "expect-fail"),
+    (_DM, "DMRG1._update_local_state_1site", "        Heff, Neff = self.form_local_ops(i, dims, lix, uix)\n\n        # get the old local groundstate", "        Heff, Neff = self.form_local_ops(i + 1, dims, lix, uix)\n\n        # get the old local groundstate", "expect-fail"),
+    (_DM, "DMRG1._update_local_state_1site", "        self._k[i].modify(data=loc_gs)\n", "        self._k[i + 1].modify(data=loc_gs)\n", "expect-fail"),
+    (_DM, "DMRG2._update_local_state_2site", "absorb=direction,", 'absorb="right",', "expect-fail"),
+    (_DM, "DMRG2._update_local_state_2site", "            right_inds=uix_R,\n            **compress_opts,\n", "            right_inds=uix_R,\n", "expect-fail"),
+    (_DM, "DMRG2._update_local_state_2site", "            right_inds=uix_R,\n            **compress_opts,\n", "            right_inds=uix_R,\n            **{**compress_opts, 'max_bond': None},\n", "expect-fail"),
+    (_DM, "DMRG2._update_local_state_2site", "self._k[i].modify(data=L, inds=(*uix_L, u_bond_ind))", "self._k[i].modify(data=R, inds=(*uix_L, u_bond_ind))", "expect-fail"),
+    (_DM, "DMRG2._update_local_state_2site", "self._k[i + 1].modify(data=R, inds=(u_bond_ind, *uix_R))", "self._k[i + 2].modify(data=R, inds=(u_bond_ind, *uix_R))", "expect-fail"),
+    (_DM, "DMRG2._update_local_state_2site", "        Heff, Neff = self.form_local_ops(i, dims, lix, uix)\n\n        # get the old 2-site", "        Heff, Neff = self.form_local_ops(i + 1, dims, lix, uix)\n\n        # get the old 2-site", "expect-fail"),
+    (_DM, "DMRG2._update_local_state_2site", ") = parse_2site_inds_dims(self._k, self._b, i)", ") = parse_2site_inds_dims(self._b, self._k, i)", "expect-fail"),
+    # ---- _update_local_state
+    (_DM, "DMRG._update_local_state", "self.ME_eff_ham.move_to(i)", "self.ME_eff_ham.move_to(i + 1)", "expect-fail"),
+    (_DM, "DMRG._update_local_state", "self.ME_eff_ham.move_to(i)", "pass", "expect-fail"),
+    (_DM, "DMRG._update_local_state", "}[self.bsz](i, **update_opts)", "}[self.bsz](i, direction=update_opts['direction'])", "expect-fail"),
+    (_DM, "DMRG._update_local_state", "            1: self._update_local_state_1site,\n            2: self._update_local_state_2site,", "            2: self._update_local_state_1site,\n            1: self._update_local_state_2site,", "expect-fail"),
+    (_DM, "DMRG._update_local_state", "}[self.bsz](i, **update_opts)", "}[self.bsz](i - 1, **update_opts)", "expect-fail"),
+    # ---- sweep
+    (_DM, "DMRG.sweep", '("R", False): ("right", "left", range(n - bsz + 1)),', '("R", False): ("right", "left", range(n - bsz)),', "expect-fail"),
+    (_DM, "DMRG.sweep", '("R", False): ("right", "left", range(n - bsz + 1)),', '("R", False): ("right", "left", range(1, n - bsz + 1)),', "expect-fail"),
+    (_DM, "DMRG.sweep", '("R", False): ("right", "left", range(n - bsz + 1)),', '("R", False): ("right", "right", range(n - bsz + 1)),', "expect-fail"),
+    (_DM, "DMRG.sweep", '("R", False): ("right", "left", range(n - bsz + 1)),', '("R", False): ("left", "left", range(n - bsz + 1)),', "expect-fail"),
+    (_DM, "DMRG.sweep", '("L", False): ("left", "right", range(n - bsz, -1, -1)),', '("L", False): ("left", "right", range(n - bsz, 0, -1)),', "expect-fail"),
+    (_DM, "DMRG.sweep", '("L", False): ("left", "right", range(n - bsz, -1, -1)),', '("L", False): ("left", "right", range(n - 1, -1, -1)),', "expect-fail"),
+    (_DM, "DMRG.sweep", '{"R": self._k.right_canonize, "L": self._k.left_canonize}[', '{"L": self._k.right_canonize, "R": self._k.left_canonize}[', "expect-fail"),
+    (_DM, "DMRG.sweep", "        if canonize:\n            {", "        if not canonize:\n            {", "expect-fail"),
+    (_DM, "DMRG.sweep", "self._update_local_state(i, direction=direction, **update_opts)", "self._update_local_state(i, direction=direction)", "expect-fail"),
+    (_DM, "DMRG.sweep", "self._update_local_state(i, direction=direction, **update_opts)", "self._update_local_state(n - bsz - i, direction=direction, **update_opts)", "expect-fail"),
+    (_DM, "DMRG.sweep", "return tot_ens[-1]", "return tot_ens[0]", "expect-fail"),
+    (_DM, "DMRG.sweep", "return tot_ens[-1]", "return local_ens[-1]", "expect-fail"),
+    (_DM, "DMRG.sweep", "](bra=self._b)", "]()", "expect-fail"),
+    (_DM, "DMRG.sweep", '"bsz": bsz,', '"bsz": 1,', "expect-fail"),
+    (_DM, "DMRG.sweep_right", 'direction="R",', 'direction="L",', "expect-fail"),
+    (_DM, "DMRG.sweep_right", "            canonize=canonize,\n            verbosity=verbosity,\n            **update_opts,\n        )\n\n    def sweep_left", "            canonize=True,\n            verbosity=verbosity,\n            **update_opts,\n        )\n\n    def sweep_left", "expect-fail"),
+    (_DM, "DMRG.sweep_right", "            verbosity=verbosity,\n            **update_opts,\n        )\n\n    def sweep_left", "            verbosity=verbosity,\n        )\n\n    def sweep_left", "expect-fail"),
+    (_DM, "DMRG.sweep_right", "    def sweep_right(self, canonize=True, verbosity=0, **update_opts):\n        return self.sweep(", "    def sweep_right(self, canonize=True, verbosity=0, **update_opts):\n        self.sweep(direction='R', canonize=canonize, verbosity=verbosity, **update_opts)\n        return self.sweep(", "expect-fail"),
+    (_DM, "DMRG.sweep_left", 'direction="L",', 'direction="R",', "expect-fail"),
+    (_DM, "DMRG.sweep_left", "            canonize=canonize,\n            verbosity=verbosity,\n            **update_opts,\n        )\n\n    # ---", "            canonize=False,\n            verbosity=verbosity,\n            **update_opts,\n        )\n\n    # ---", "expect-fail"),
+    (_DM, "DMRG.sweep_left", "            verbosity=verbosity,\n            **update_opts,\n        )\n\n    # ---", "            verbosity=verbosity,\n        )\n\n    # ---", "expect-fail"),
+    (_DM, "DMRG.sweep_left", "    def sweep_left(self, canonize=True, verbosity=0, **update_opts):\n        return self.sweep(", "    def sweep_left(self, canonize=True, verbosity=0, **update_opts):\n        return None\n        return self.sweep(", "expect-fail"),
 ]
